@@ -332,6 +332,10 @@ func (s *BaseNodeService) verifyMessage(fsmInstance *state_machines.FSMInstance,
 		return fmt.Errorf("failed to GetPubKeyByUsername: %w", err)
 	}
 
+	// ed25519.Verify panics on a key of the wrong length
+	if len(senderPubKey) != ed25519.PublicKeySize {
+		return fmt.Errorf("registered public key of %s has a wrong length", message.SenderAddr)
+	}
 	if !ed25519.Verify(senderPubKey, message.Bytes(), message.Signature) {
 		return errors.New("signature is corrupt")
 	}
